@@ -10,6 +10,8 @@ use serde_json::{json, Map, Value};
 use std::time::{Duration, Instant};
 
 static DONE: std::sync::atomic::AtomicU64 = std::sync::atomic::AtomicU64::new(0);
+/// pthread id -> number of the scheduling thread (the monitor's `mon_sig` hook reports pthread ids)
+static PTHREADS: std::sync::Mutex<Vec<(u64, u64)>> = std::sync::Mutex::new(Vec::new());
 
 fn checksum(n: u64) -> u64 {
     let mut s = 0u64;
@@ -20,9 +22,26 @@ fn checksum(n: u64) -> u64 {
     s
 }
 
+/// number of the scheduling thread this code runs on (0 = not a scheduling thread)
+fn cur_sched() -> u64 {
+    let p = unsafe { libc::pthread_self() } as u64;
+    PTHREADS.lock().unwrap().iter().find(|x| x.0 == p).map_or(0, |x| x.1)
+}
+
 fn hook_map(mut m: Map<String, Value>) -> Option<Map<String, Value>> {
-    if m.get("ev").and_then(Value::as_str) != Some("chg") {
-        return None;
+    match m.get("ev").and_then(Value::as_str) {
+        // one record per scan of the monitor thread: proof that the monitor was scheduled by the OS
+        Some("mon_scan") => return Some(m),
+        // the monitor is about to send (mon_sig_b) / has sent (mon_sig) SIGURG to a scheduling thread
+        Some("mon_sig") | Some("mon_sig_b") => {
+            let p = m.get("pthread").and_then(Value::as_u64).unwrap_or(0);
+            let own = PTHREADS.lock().unwrap().iter().find(|x| x.0 == p).map_or(0, |x| x.1);
+            m.remove("pthread");
+            m.insert("own".into(), json!(own));
+            return Some(m);
+        }
+        Some("chg") => {}
+        _ => return None,
     }
     let name = m.get("name").and_then(Value::as_str).unwrap_or("").to_string();
     let parts: Vec<&str> = name.split('-').collect();
@@ -39,6 +58,7 @@ fn hook_map(mut m: Map<String, Value>) -> Option<Map<String, Value>> {
     // `own` is the thread that created the coroutine (rec() stamps the executing thread as `th`)
     m.insert("own".into(), json!(parts[1].parse::<u64>().unwrap_or(0)));
     m.insert("co".into(), json!(parts[2].parse::<u64>().unwrap_or(0)));
+    m.insert("on".into(), json!(cur_sched()));
     if kind == "Error" {
         m.insert("msg".into(), json!(new.clone()));
     }
@@ -52,6 +72,7 @@ fn run_scenario(sc: &Value) {
     let threads = sc["threads"].as_u64().unwrap();
     let shorts = sc["shorts"].as_u64().unwrap_or(0);
     let busy_kind = sc["busy"].as_str().unwrap_or("running").to_string();
+    let sig_self = sc["sig_self"].as_bool().unwrap_or(false);
     rec(json!({"ev": "mreset", "scenario": sc["id"], "threads": threads, "busy": busy_kind}));
     // calibrate: iterations for about 45 ms of computation
     let t0 = Instant::now();
@@ -64,6 +85,7 @@ fn run_scenario(sc: &Value) {
     for th in 1..=threads {
         let busy_kind = busy_kind.clone();
         hs.push(std::thread::spawn(move || {
+            PTHREADS.lock().unwrap().push((unsafe { libc::pthread_self() } as u64, th));
             let mut sch = Scheduler::new(format!("pre-{th}"), 128 * 1024);
             let mk = |idx: u64, kind: &str, f: Box<dyn FnOnce() -> Option<usize>>| {
                 let co = SchedulableCoroutine::new(Some(format!("p-{th}-{idx}-{kind}")), move |_, ()| f(), None, None).expect("coroutine");
@@ -72,14 +94,31 @@ fn run_scenario(sc: &Value) {
             let bk = busy_kind.clone();
             let busy = mk(1, "busy", Box::new(move || {
                 let t0 = Instant::now();
-                rec(json!({"ev": "busy_b", "own": th, "co": 1, "kind": bk}));
                 if bk == "syscall" {
+                    // busy_b / busy_e are recorded while the coroutine is in the syscall state (a record made
+                    // before the state change would let a legitimate preemption of the still Running coroutine
+                    // look like one of a system call)
                     let co = SchedulableCoroutine::current().expect("current");
                     co.syscall((), SyscallName::write, SyscallState::Executing).expect("enter syscall");
+                    rec(json!({"ev": "busy_b", "own": th, "co": 1, "kind": bk, "on": cur_sched()}));
+                    // a late SIGURG (the monitor works on a snapshot of its set, so a signal for the node this
+                    // coroutine removed when it entered the system call may still arrive): the handler must
+                    // leave a coroutine in a syscall state alone. The driver delivers that signal itself.
+                    if sig_self {
+                        rec(json!({"ev": "sys_sig_b", "own": th}));
+                        unsafe { libc::raise(libc::SIGURG) };
+                        rec(json!({"ev": "sys_sig_e", "own": th}));
+                    }
                     let s = checksum(n);
-                    co.running().expect("leave syscall");
+                    if sig_self {
+                        rec(json!({"ev": "sys_sig_b", "own": th}));
+                        unsafe { libc::raise(libc::SIGURG) };
+                        rec(json!({"ev": "sys_sig_e", "own": th}));
+                    }
                     rec(json!({"ev": "busy_e", "own": th, "co": 1, "ok": s == expect, "ms": t0.elapsed().as_millis() as u64}));
+                    co.running().expect("leave syscall");
                 } else {
+                    rec(json!({"ev": "busy_b", "own": th, "co": 1, "kind": bk, "on": cur_sched()}));
                     let s = checksum(n);
                     rec(json!({"ev": "busy_e", "own": th, "co": 1, "ok": s == expect, "ms": t0.elapsed().as_millis() as u64}));
                 }
